@@ -24,7 +24,10 @@ CFG = dict(
          "blocked write) of the old connection, twice; the context cancelled at EVERY step of each of these (quick: a third of the positions "
          "of the long ones); transports that ignore their context; faults and cancellation in ONE step (also cancelling from inside the "
          "forwarding loop), repeated, judged by the predicates alone; a peer dialled on demand whose connection then fails (read / write / blocked write / dial error) and is dialled again, with the "
-         "context cancelled at every step; seeded random walks with faults; free-running stress with forged sources; AddClient and live traffic during a slow dial; forged sources (another attached peer, an unknown name, the proxy's own name) with "
+         "context cancelled at every step; seeded random walks with faults; free-running stress with forged sources; AddClient and live traffic during a slow dial; two roles on ONE peer in both orders (write loop parked in a blocked Write of a transport "
+         "that honours / ignores its context, failing before / after the hand-over; read loop failing or parked) x 8 error VALUES of the injected "
+         "read / write / dial failure (own type, wrapping context.Canceled / DeadlineExceeded / io.EOF, net timeout style, the bare values), "
+         "with the context cancelled at every step of the first two; forged sources (another attached peer, an unknown name, the proxy's own name) with "
          "sender-controlled route record and return route ([], [sender], [other], [x, sender], [sender, x], ...) and every envelope shape; the rig runs as 8 shard processes; a scenario in which the proxy holds a mutex across a "
          "blocking call (synctest.Wait cannot return) is reported as wedged by a real-time watcher (exit 3 = failing input) and the run resumes",
     assumptions=["payloads are opaque to the proxy (tokens)",
